@@ -71,7 +71,12 @@ contract(K,
                           ("call", FE, {"z": "ZC", "labels": "labels", "k": "kk + 1", "hi": "ii", "N": "M"})],
            "entry_hints": [("call", RM, {"labels": "labels", "a": "0", "b": "M - 1", "N": "M"})]},
     },
-    anchors={"after: z =": [("let", "ZC", "z")]},
-    options={"nloops": 2, "cast_obligations": False},
+    anchors={"after: z =": [("let", "ZC", "z")],
+             "after: temp[-1] =": [
+                 ("have", "last_mark_rank", "implies(template[M - 1] != 0, cntpos(template, M - 1) == NX - 1)", {"only": ["req", "range", "inv:range"]}),
+                 ("have", "temp_is_obs", "forall(i, 0, M, implies(template[i] != 0, temp[i] == real(x[cntpos(template, i)])))",
+                  {"only": ["have:last_mark_rank", "inv:scattered", "inv:range", "range", "req"]})]},
+    options={"nloops": 2, "cast_obligations": False, "by_id": [
+        (r"/post/daily_curve", {"only": ["call:ws2d/normal_eq", "have:temp_is_obs", "req:marks", "inv:weights", "inv:range", "range"], "nlabs": False})]},
     props=("C20", "C14"),
     note="model R; the int16 range of the rounded means is the property's own domain restriction (no cast obligation)")
